@@ -192,14 +192,14 @@ def DtcLinLeaf.supOk (l : DtcLinLeaf) : PVal → Prop
   | .atom (.str cps) => ∃ d, (l.dtcs.filter fun d => d.2.toList.map Char.toNat == cps) = [d] ∧ d.1 = l.z
   | _ => False
 
-theorem methodP2I_linear_int {σ : Type} (s : LinSeg) (z i : Int) (hpa : s.physApplies (.int z) = .ok true)
+theorem dtcP2I_linear_int {σ : Type} (s : LinSeg) (z i : Int) (hpa : s.physApplies (.int z) = .ok true)
     (hex : exactP s z = true) (hconv : (Method.linear s).p2i (.int z) = .ok (.int i)) (st : σ) (strict : Bool) :
     (methodP2I (.linear s) (.int z) : OdxM σ Val) st strict = .ok (.int i, st) := by
   have hcv : s.convP2I (.int z) = .ok (.int i) := by
     simpa [Method.p2i, hpa, bind, Except.bind] using hconv
   simp [methodP2I, hpa, Val.num?, hex, hcv, run_pure, pure]
 
-theorem methodI2P_linear_int {σ : Type} (arith : Err) (s : LinSeg) (i z : Int) (hd : s.denom ≠ 0)
+theorem dtcI2P_linear_int {σ : Type} (arith : Err) (s : LinSeg) (i z : Int) (hd : s.denom ≠ 0)
     (hia : s.intApplies (.int i) = .ok true) (hex : exactI s i = true)
     (hconv : (Method.linear s).i2p (.int i) = .ok (.int z)) (st : σ) (strict : Bool) :
     (methodI2P arith (.linear s) (.int i) : OdxM σ (Option Val)) st strict = .ok (some (.int z), st) := by
@@ -214,7 +214,7 @@ theorem DtcLinLeaf.convOk (l : DtcLinLeaf) (h : l.ok) (sup : PVal) (hs : l.supOk
     intro f es
     have hm' : (CCompu.linear l.d).method? l.o.dct.baseType l.phys = some (.linear l.s) := by
       simp [CCompu.method?, Obj.dct_baseType, hm]
-    have hconv := fun (e : EncState) => methodP2I_linear_int l.s l.z l.i hpa hexP hp2i e true
+    have hconv := fun (e : EncState) => dtcP2I_linear_int l.s l.z l.i hpa hexP hp2i e true
     unfold DtcLinLeaf.dop encodeDop
     match sup, hs with
     | .dtc c, hs =>
@@ -234,7 +234,7 @@ theorem DtcLinLeaf.convOk (l : DtcLinLeaf) (h : l.ok) (sup : PVal) (hs : l.supOk
     have hm' : (CCompu.linear l.d).method? l.o.dct.baseType l.phys = some (.linear l.s) := by
       simp [CCompu.method?, Obj.dct_baseType, hm]
     have hia : l.s.intApplies (.int l.i) = .ok true := hvi
-    have hconv := fun (e : DecState) => methodI2P_linear_int .decode l.s l.i l.z hd hia hexI hi2p e true
+    have hconv := fun (e : DecState) => dtcI2P_linear_int .decode l.s l.i l.z hd hia hexI hi2p e true
     unfold DtcLinLeaf.dop decodeDop
     simp [hm', hdec, toVal?, Method.validI, hia, hconv, bind, run_bind, pure, run_pure, hone, odxassert]
   sup_ne_none := by
@@ -263,7 +263,7 @@ theorem DtcLinLeaf.encode_unknown_internal (l : DtcLinLeaf) (hm : linMethod? l.d
     (f : Nat) (es : EncState) : encodeDop (f + 1) l.dop (.atom (.int l.z)) es true = .error (.encode, es) := by
   have hm' : (CCompu.linear l.d).method? l.o.dct.baseType l.phys = some (.linear l.s) := by
     simp [CCompu.method?, Obj.dct_baseType, hm]
-  have hconv := fun (e : EncState) => methodP2I_linear_int l.s l.z l.i hpa hexP hp2i e true
+  have hconv := fun (e : EncState) => dtcP2I_linear_int l.s l.z l.i hpa hexP hp2i e true
   unfold DtcLinLeaf.dop encodeDop
   simp [hm', hconv, bind, run_bind, pure, run_pure, hk, run_odxraise_strict]
 
